@@ -2,24 +2,36 @@
 use crate::engine::{Ctx, R};
 use serde_json::Value;
 
-pub mod c12;
-
-pub fn run(ctx: &mut Ctx) -> bool {
-    match ctx.property.as_str() {
-        "C12" => c12::run(ctx),
-        _ => return false,
-    }
-    true
+macro_rules! properties {
+    ($($id:literal => $m:ident),+ $(,)?) => {
+        $(pub mod $m;)+
+        pub fn run(ctx: &mut Ctx) -> bool {
+            match ctx.property.as_str() {
+                $($id => $m::run(ctx),)+
+                _ => return false,
+            }
+            true
+        }
+        pub fn replay(ctx: &mut Ctx, sub: &str, v: Value) -> Option<R> {
+            match ctx.property.clone().as_str() {
+                $($id => $m::replay(ctx, sub, v),)+
+                _ => None,
+            }
+        }
+    };
 }
 
-pub fn replay(ctx: &mut Ctx, sub: &str, v: Value) -> Option<R> {
-    match ctx.property.clone().as_str() {
-        "C12" => c12::replay(ctx, sub, v),
-        _ => None,
-    }
+properties! {
+    "C01" => c01,
+    "C02" => c02,
+    "C11" => c11,
+    "C12" => c12,
 }
 
 /// Cheap self-tests of the numerical oracles; failure makes the run inconclusive, not a violation.
 pub fn self_test() -> bool {
     crate::oracle::dd::self_test()
+        && crate::oracle::linalg::self_test()
+        && crate::oracle::quad::self_test()
+        && c02::self_test()
 }
